@@ -141,6 +141,10 @@ open MLPE
     (reduced P s a b r o n).1.core = s.core := by
   simp [reduced]
 
+@[simp] theorem core_oneofWin (c : Ctx) (s : St) (obs : List Obs) (head cand : Node) (below : List Frame) :
+    (oneofWin c s obs head cand below).1.core = s.core := by
+  simp [oneofWin]
+
 @[simp] theorem core_oneofTry (c : Ctx) (d : DagRef) (head : Node) (below : List Frame) (s : St) (obs : List Obs)
     (cands : List Node) : (oneofTry c d head below s obs cands).1.core = s.core := by
   induction cands generalizing s obs with
@@ -153,8 +157,8 @@ open MLPE
     · simp
     · split
       · split
-        · simp
         · rw [ih]; simp
+        · simp
       · simp
 
 @[simp] theorem core_oneofWake (c : Ctx) (s : St) (obs : List Obs) (d : DagRef) (head cand : Node) (rest : List Node)
